@@ -186,6 +186,10 @@ pub enum EnvAct {
     /// a command file that has been a plain, non-executable file since before the run started becomes
     /// executable (it is replaced by the helper): whoever prepares the world downgrades the file first
     MakeHelper { rel: String },
+    /// the executable about to be started (the command file of the `run.spawn` point at which this fires) is
+    /// open for writing by another process for `ms` of real time from now on: exec fails with ETXTBSY until it
+    /// is released (an editor, a generator, an earlier command still writing the script)
+    BusyExec { ms: u32 },
 }
 #[derive(Serialize, Deserialize, Clone, Debug, PartialEq)]
 pub struct EnvAction {
@@ -849,6 +853,33 @@ pub fn drive_run_l(w: &mut World, actor: &str, sc: &RunScript, hang: Duration, l
                                 EnvAct::MakeHelper { rel } => {
                                     let _ = std::fs::remove_file(root.join(rel));
                                     std::os::unix::fs::symlink(crate::world::bin_dir().join("vhelper"), root.join(rel))
+                                }
+                                EnvAct::BusyExec { ms } => {
+                                    // a private copy of the helper (the shared binary must not become busy for
+                                    // every other world), then a writer that goes away after `ms`
+                                    let (c, t) = split_detail(&p.detail);
+                                    let path = argv0_map.iter().find(|(_, (tt, cc))| *cc == c && (*tt == t || tt == "*")).map(|(k, _)| std::path::PathBuf::from(std::ffi::OsStr::from_bytes(k)));
+                                    match path {
+                                        None => Err(std::io::Error::new(std::io::ErrorKind::NotFound, "no command file known for this spawn")),
+                                        Some(path) => {
+                                            let is_link = std::fs::symlink_metadata(&path).map(|m| m.file_type().is_symlink()).unwrap_or(false);
+                                            let prep = if is_link {
+                                                std::fs::remove_file(&path)
+                                                    .and_then(|_| std::fs::copy(crate::world::bin_dir().join("vhelper"), &path).map(|_| ()))
+                                                    .and_then(|_| std::fs::set_permissions(&path, std::fs::Permissions::from_mode(0o755)))
+                                            } else {
+                                                Ok(())
+                                            };
+                                            prep.and_then(|_| std::fs::OpenOptions::new().write(true).open(&path)).map(|f| {
+                                                let ms = *ms as u64;
+                                                tr.real_pause_ms += ms;
+                                                std::thread::spawn(move || {
+                                                    std::thread::sleep(Duration::from_millis(ms));
+                                                    drop(f);
+                                                });
+                                            })
+                                        }
+                                    }
                                 }
                             };
                             tr.env_actions_done += 1;
